@@ -3,6 +3,7 @@ From Coq Require Import List NArith ZArith.
 Import ListNotations.
 Require Import ITree.Model.Common ITree.Model.RBTree ITree.Model.MapModel.
 Require Import ITree.Spec.Spec ITree.Spec.MapSpec ITree.Proofs.MapProofs ITree.Proofs.MapTheorems.
+Require ITree.Model.ArenaModel ITree.Model.ArenaQuery ITree.Proofs.ArenaProofs ITree.Proofs.ArenaKeyProofs ITree.Proofs.ArenaQueryProofs.
 
 (* In every reachable state, for every probe: the handle is the empty sentinel exactly when no stored
    key is <= the probe ([a_pred] = None); otherwise reading through it yields the entry with the
@@ -33,3 +34,11 @@ Example C08_example :
     [UNone; UNone; UNone; UEnt None; UEnt (Some (2, 20)%Z); UEnt (Some (5, 50)%Z); UEnt (Some (8, 80)%Z); UNone;
      UEnt (Some (2, 20)%Z); UNone; UEnt (Some (8, 81)%Z)].
 Proof. vm_compute. repeat split. Qed.
+
+(* the predecessor handle as the code computes it (search_first_less / search_first_less_by), on the
+   parent-pointer arena: the handle of the tree-level [m_first_by] (EMPTY_REF for none), within
+   height-many iterations *)
+Theorem C08_arena_first_by : forall (a: ArenaModel.astate ment) (s: mstate) (f: Z -> comparison) (fuel: nat),
+  ArenaProofs.Rep a ArenaModel.EMPTY (ArenaModel.aroot a) (root s) -> (height ment (root s) < fuel)%nat ->
+  ArenaQuery.arena_search_first_less_by mkey fuel a f = Ret (ArenaKeyProofs.olink (m_first_by s f)).
+Proof. intros a s f fuel HR Hf. exact (ArenaQueryProofs.arena_map_first_by a s HR f fuel Hf). Qed.
